@@ -16,12 +16,24 @@ tightened onto / just above the second point, made finite from +inf, loosened, m
 bound; no edit), f_gradient again; x normalize off/on x x_indices x step.  The second call is judged exactly like a
 fresh call against the CURRENT bounds (own model of the coordinates: only components with two finite bounds are
 normalized).
+Part K (keyword arguments of the function x histories on ONE approximator instance): f_gradient(x, **kwargs) must
+differentiate the function WITH THE KEYWORD ARGUMENTS OF THAT CALL: kwargs in {none, {c}, {c, body}} (c multiplies the
+outputs, body selects another test function on the same box; F(.; c, body) is again a TestFn, so the same derived
+bounds judge it) x approximator x serial / 2 processes x every history of at most one (thorough: two) earlier calls
+f_gradient(x', **kwargs') / compute_optimal_step(x', **kwargs') on the same instance x where the step of the judged
+call comes from (given at the call / left in the instance by the constructor or by compute_optimal_step) x x_indices.
 Part B (discipline level), on two harness disciplines - x1 (size 1), x2 (2) -> y1 (1), y2 (2) and a (3), b (2) ->
 y (2), w (2), the second one so that a strict subset on a variable that is NOT the last one moves the flat positions of
 the following variable: Discipline.linearize in the three approximation modes (B1); Discipline.check_jacobian(
 indices=...) on a correct Jacobian (verdict, and the reference Jacobian the call itself saves, block by block:
 selected columns exact, the others zero) and on Jacobians wrong in exactly one selected entry of any selected block
 (B2); DisciplineJacApprox.compute_approx_jac(x_indices=...) placement of partial Jacobians (B3).
+Part B4 (Discipline.check_jacobian, the point axis): auto_set_step {off, on} x input_data {absent = the defaults,
+the defaults passed explicitly, another interior point, a point with zero components, only the last variable given;
+thorough: a point on the upper bounds} x method x input_names/output_names x indices x {exact Jacobian: accepted, and
+the reference Jacobian the call saves is the derivative AT input_data block by block; one wrong selected entry:
+rejected}.  auto_set_step evaluates the discipline around its DEFAULT inputs; what it leaves in the discipline must not
+move the point of the approximation.
 Part C (cache axis of the discipline level): cache in {none, SimpleCache, MemoryFullCache} x tolerance in {0, 1e-4
 (far above every step), 1e-12} x linearize in the three modes / compute_approx_jac / check_jacobian (exact Jacobian
 accepted; one wrong entry, a forgotten block, a null Jacobian rejected), same error-bound oracle.
@@ -81,8 +93,22 @@ Oracle boundaries
   NOT zero the tolerance on the unmodified tree (steps and error estimates silently degenerate with a tolerant
   cache): patch notes/fixes/c16_auto_set_step_cache_tolerance.diff; the witnesses run with ``./check C16 --only Y``
   (not part of the default run until the patch is applied or the finding registered).
-* check_jacobian(auto_set_step=True): the accuracy then depends on gemseo's own step estimate, for which the
-  statement gives no bound; not enumerated (a witness through that path is quoted in the report only).
+* check_jacobian(auto_set_step=True) (part B4): the statement bounds the error "for the step used"; the steps are the
+  ones DisciplineJacApprox.auto_set_step returns for a twin discipline with the same defaults (it works at the defaults,
+  independently of input_data), and the case is judged with the bounds derived for THOSE steps when they lie in the
+  numerically safe range [1e-10, MARGIN) (otherwise counted as not judged: a vanishing output at the defaults gives a
+  zero step today - the statement does not cover gemseo's step estimate itself).  auto_set_step is documented "for a
+  forward first order finite differences gradient approximation"; CenteredDifferences also implements
+  compute_optimal_step, ComplexStep does not (check_jacobian(derr_approx="complex_step", auto_set_step=True) raises
+  AttributeError): the auto_set_step axis is crossed with FirstOrderFD and CenteredDifferences only.
+* Part K, step taken from the instance (after compute_optimal_step: the "optimal" steps it stored): judged for that
+  step when every component lies in [1e-10, MARGIN), else counted as not judged.  compute_optimal_step itself has no
+  oracle but "no exception" (the statement says nothing on the steps it returns).  On the unmodified tree a SECOND
+  compute_optimal_step on one instance (its ``step`` is then one value per component) raises a ValueError: patch
+  notes/fixes/c16_optimal_step_per_component.diff; those histories run with ``./check C16 --only KO`` (not part of the
+  default run until the patch is applied or the finding registered, see K_REPEATED_OPTIMAL_STEP).  The function must accept the keyword
+  arguments it is called with; keyword arguments are values that CHANGE the output (a stale or dropped keyword
+  argument is then an O(1) error, far above every bound).
 * check_jacobian on a Jacobian wrong in a NOT selected entry: not specified by the statement, not checked.
 * Discipline-level parallel differentiation uses processes (threads on one discipline are documented unsafe).
 * DisciplineJacApprox differentiates a function of the differentiated inputs only; the other inputs are taken from the
@@ -125,9 +151,9 @@ MODE = {"FD": "finite_differences", "CD": "centered_differences", "CS": "complex
 # value alphabets (rotated by VERIF_SEED; the enumerated structure never changes)
 # ------------------------------------------------------------------------------------------------------
 ALPHABETS = [
-    {"steps": (1e-4, 1e-6), "vec": (1e-4, 1e-5, 1e-6, 3e-5), "cs_steps": (1e-20, 1e-30), "interior": (0.575, 0.22, 0.7, 0.41), "near": 0.5},
-    {"steps": (1e-3, 1e-5), "vec": (1e-5, 1e-3, 1e-4, 1e-6), "cs_steps": (1e-20, 1e-25), "interior": (0.31, 0.64, 0.45, 0.83), "near": 0.25},
-    {"steps": (3e-4, 2e-6), "vec": (2e-6, 3e-4, 5e-5, 1e-5), "cs_steps": (1e-30, 1e-15), "interior": (0.79, 0.36, 0.28, 0.62), "near": 0.9},
+    {"steps": (1e-4, 1e-6), "vec": (1e-4, 1e-5, 1e-6, 3e-5), "cs_steps": (1e-20, 1e-30), "interior": (0.575, 0.22, 0.7, 0.41), "near": 0.5, "kw_c": (2.5, -0.5)},
+    {"steps": (1e-3, 1e-5), "vec": (1e-5, 1e-3, 1e-4, 1e-6), "cs_steps": (1e-20, 1e-25), "interior": (0.31, 0.64, 0.45, 0.83), "near": 0.25, "kw_c": (-3.0, 0.25)},
+    {"steps": (3e-4, 2e-6), "vec": (2e-6, 3e-4, 5e-5, 1e-5), "cs_steps": (1e-30, 1e-15), "interior": (0.79, 0.36, 0.28, 0.62), "near": 0.9, "kw_c": (0.4, -2.0)},
 ]
 
 
@@ -364,6 +390,35 @@ class _Probe:
         return self.fn.value(self.off + u * self.scale)
 
 
+# keyword arguments of the differentiated function (part K): ``c`` multiplies every output, ``body`` names another test
+# function on the same box.  F(.; c, body) is itself a TestFn (the coefficients of ``body`` multiplied by c), so the
+# oracle (exact derivative, term-wise bounds, rounding budget) applies to it verbatim.
+KW_BODY = {"cubic3": "expsin3", "expsin3": "disc33", "disc33": "cubic3"}
+_KW_FN: dict = {}
+
+
+def _kw_fn(name, c=1.0):
+    c = float(c)
+    if c == 1.0:
+        return FUNCS[name]
+    if (name, c) not in _KW_FN:
+        f = FUNCS[name]
+        _KW_FN[name, c] = TestFn(f"{name}*{c!r}", [[(c * k, facs) for k, facs in o] for o in f.outs], f.lb, f.ub, f.scalar_out)
+    return _KW_FN[name, c]
+
+
+def _kw_eff(fn, fkw):
+    return _kw_fn((fkw or {}).get("body") or fn.name, (fkw or {}).get("c", 1.0))
+
+
+class _KwProbe(_Probe):
+    """A function with keyword arguments that change its value: f(u, c=1.0, body=None)."""
+
+    def __call__(self, u, c=1.0, body=None):
+        _LOG.add(u)
+        return _kw_fn(body or self.fn.name, c).value(self.off + u * self.scale)
+
+
 def _approx_class(name):
     if name == "FD":
         from gemseo.utils.derivatives.finite_differences import FirstOrderFD as c
@@ -475,9 +530,11 @@ def _resolve_step(case, fn, alpha):
     return s, np.full(n, s)
 
 
-def _one_call(fn, approx, ap, probe, u, lbu, ubu, has_ds, call_step, step_repr, hvec, idx):
-    """One f_gradient call on ``ap`` judged by the full oracle (shape, error bound, evaluation log)."""
+def _one_call(fn, approx, ap, probe, u, lbu, ubu, has_ds, call_step, step_repr, hvec, idx, fkw=None):
+    """One f_gradient call on ``ap`` judged by the full oracle (shape, error bound, evaluation log); ``fkw``: the
+    keyword arguments of the function given to this call - the function judged is F(.; **fkw)."""
     n = fn.n
+    fn = _kw_eff(fn, fkw)
     cols = idx or list(range(n))
     scale = probe.scale
     expected = (fn.jac(probe.off + u * scale) * scale)[:, cols]
@@ -487,7 +544,7 @@ def _one_call(fn, approx, ap, probe, u, lbu, ubu, has_ds, call_step, step_repr, 
     viols = []
     _LOG.reset(n)
     try:
-        jac = ap.f_gradient(u.copy(), step=call_step, x_indices=idx)
+        jac = ap.f_gradient(u.copy(), step=call_step, x_indices=idx, **(fkw or {}))
     except Exception as e:  # noqa: BLE001 - any exception on a legal call is an observation
         viols.append(("no-exception", f"{type(e).__name__}: {str(e)[:200]}"))
         obs["raised"] = f"{type(e).__name__}: {str(e)[:200]}"
@@ -672,6 +729,57 @@ def exec_H(case):
 
 
 # ------------------------------------------------------------------------------------------------------
+# Part K: keyword arguments of the function x serial / process-parallel x histories on ONE approximator
+# ------------------------------------------------------------------------------------------------------
+SAFE_STEP = (1e-10, MARGIN)  # "numerically safe range" for a step the harness did not choose itself (part K, B4)
+
+
+def _kw(name, fn, alpha):
+    c1, c2 = alpha["kw_c"]
+    other = KW_BODY[fn.name]
+    return {"none": {}, "c": {"c": c1}, "cb": {"c": c2, "body": other}, "b": {"body": other}, "c1": {"c": 1.0}}[name]
+
+
+def exec_K(case):
+    """A history of calls on ONE approximator: f_gradient(x, **kwargs) ("g") / compute_optimal_step(x, **kwargs) ("o")
+    with keyword arguments from the alphabet, then f_gradient(x, **kwargs of the last call), judged like a fresh call
+    for the function WITH THE KEYWORD ARGUMENTS OF THAT CALL.  The step of the last call is given at the call, or
+    taken from the instance (what the constructor / the last compute_optimal_step left in ``step``; judged for that
+    step when it lies in the safe range)."""
+    fn = FUNCS[case["fn"]]
+    alpha = ALPHABETS[case["alpha"]]
+    approx, n, idx = case["approx"], fn.n, list(case["idx"])
+    s1 = alpha["cs_steps"][0] if approx == "CS" else alpha["steps"][0]
+    probe = _KwProbe(fn)
+    for k in {kn for _, kn in case["hist"]} | {case["last"]}:  # built before any fork: the children inherit them
+        _kw_eff(fn, _kw(k, fn, alpha))
+    kwargs = {"parallel": True, "n_processes": 2} if case["par"] else {}
+    try:
+        ap = _approx_class(approx)(probe, step=s1, **kwargs)
+    except Exception as e:  # noqa: BLE001
+        return [("no-exception", f"{type(e).__name__}: {str(e)[:200]}")], {"raised": f"{type(e).__name__}: {str(e)[:200]}", "pattern": "raised"}
+    u, lbu, ubu = _point(fn, "interior", "none", np.full(n, 1e-6), alpha)
+    u_first = fn.lb + np.array(alpha["interior"][:n][::-1], dtype=float) * fn.span  # the earlier calls are made elsewhere
+    for op, kn in case["hist"]:
+        kw = _kw(kn, fn, alpha)
+        _LOG.reset(n)
+        try:
+            if op == "g":
+                ap.f_gradient(u_first.copy(), step=s1, **kw)
+            else:
+                ap.compute_optimal_step(u_first.copy(), **kw)
+        except Exception as e:  # noqa: BLE001
+            return [("no-exception", f"in the history, {op}({kn}): {type(e).__name__}: {str(e)[:200]}")], {"raised": f"{type(e).__name__}: {str(e)[:200]}", "pattern": "raised"}
+    if case["stepmode"] == "call":
+        call_step, hvec = s1, np.full(n, s1)
+    else:
+        call_step, hvec = None, np.array(np.broadcast_to(np.real(np.asarray(ap.step)).astype(float), (n,)))
+        if approx != "CS" and not ((hvec >= SAFE_STEP[0]) & (hvec < SAFE_STEP[1])).all():
+            return [], {"pattern": "instance-step-outside-safe-range:not-judged", "step": hvec.tolist()}
+    return _one_call(fn, approx, ap, probe, u, lbu, ubu, False, call_step, hvec.tolist(), hvec, idx, fkw=_kw(case["last"], fn, alpha))
+
+
+# ------------------------------------------------------------------------------------------------------
 # Part B: discipline level
 # ------------------------------------------------------------------------------------------------------
 LAYOUTS = {
@@ -825,9 +933,9 @@ def _data(ins, x):
     return {k: x[c].copy() for k, c in ins.items()}
 
 
-def _check_jacobian(d, case, data, a, thr, step, sel, names_in, names_out):
+def _check_jacobian(d, case, data, a, thr, step, sel, names_in, names_out, **extra):
     """Discipline.check_jacobian; returns (verdict, approximated Jacobian saved by the call itself or None)."""
-    kw = {} if step is None else {"step": step}
+    kw = {**extra} if step is None else {"step": step, **extra}
     path = None
     if _SCRATCH and not case.get("wrong"):
         path = os.path.join(_SCRATCH, f"ref_{os.getpid()}.pkl")
@@ -928,6 +1036,80 @@ def exec_B(case):
             viols += _judge_check(case, ok, approx, case["sel"], case["I"], case["O"], lay, exact, tol, step, thr)
         else:
             raise ValueError(part)
+    except HarnessError:
+        raise
+    except Exception as e:  # noqa: BLE001
+        viols.append(("no-exception", f"{type(e).__name__}: {str(e)[:200]}"))
+        obs["raised"] = f"{type(e).__name__}: {str(e)[:200]}"
+    return _dedupe(viols), obs
+
+
+B4_DATA = {
+    # form of input_data -> (kind of the point, which variables are GIVEN in input_data)
+    "empty": (None, "none"),  # input_data = {}: the defaults
+    "defaults": (None, "all"),  # the defaults, passed explicitly
+    "point2": ("interior", "all"),  # another interior point
+    "zero": ("zero", "all"),  # a point with zero components
+    "on_ub": ("on_ub", "all"),
+    "partial": ("interior", "last"),  # only the last input variable is given (off its default), the others are absent
+}
+
+
+def _auto_steps(layout, x0, a, step, ni, no):
+    """The steps DisciplineJacApprox.auto_set_step chooses for this discipline (it works at the DEFAULT inputs, whatever
+    input_data is): obtained from a twin discipline with the same defaults, so that the check_jacobian call under test
+    is judged for "the step used".  -> per-component vector over all the columns of the layout (nan: not differentiated)."""
+    from gemseo.utils.derivatives.derivatives_approx import DisciplineJacApprox
+
+    lay = LAYOUTS[layout]
+    tw = _toy(layout, x0)
+    _, st = DisciplineJacApprox(tw, MODE[a], step=step).auto_set_step(list(no), list(ni), print_errors=False)
+    h = np.full(FUNCS[lay["fn"]].n, np.nan)
+    for i in ni:
+        h[lay["ins"][i]] = np.asarray(st[i], dtype=float)
+    return h
+
+
+def exec_B4(case):
+    """Discipline.check_jacobian x auto_set_step {off, on} x input_data {absent, the defaults, non-default points, only
+    some variables} x method x input/output names x indices x {exact Jacobian, one wrong selected entry}: the analytic
+    and the approximated Jacobians are both those AT input_data, whatever auto_set_step evaluated before."""
+    alpha = ALPHABETS[case["alpha"]]
+    lay = _lay(case)
+    fn, ins, outs = lay
+    layout, a = case["layout"], case["mode"]
+    ni, no = list(case["I"]) or list(ins), list(case["O"]) or list(outs)
+    x0 = _disc_point(fn, "interior", alpha)
+    kind, given = B4_DATA[case["data"]]
+    x = x0.copy() if kind is None else _disc_point(fn, kind, alpha, second=True)
+    last = list(ins)[-1]
+    for i, c in ins.items():
+        # oracle boundary (registered known finding): the inputs that are not differentiated are read from the DEFAULTS
+        if i not in ni or (given == "last" and i != last):
+            x[c] = x0[c]
+    data = {} if given == "none" else {last: x[ins[last]].copy()} if given == "last" else _data(ins, x)
+    step, hvec = _disc_step(case, alpha, fn, ins)
+    obs = {"x": x.tolist(), "defaults": x0.tolist(), "step": step}
+    viols = []
+    try:
+        extra = {}
+        if case["auto"]:
+            hvec = _auto_steps(layout, x0, a, step, ni, no)
+            obs["auto_steps"] = hvec.tolist()
+            cols = [j for i in ni for j in ins[i]]
+            if not ((hvec[cols] >= SAFE_STEP[0]) & (hvec[cols] < SAFE_STEP[1])).all():
+                obs["result"] = "auto-step-outside-safe-range:not-judged"  # the statement gives no bound for such steps
+                return viols, obs
+            hvec = np.where(np.isfinite(hvec), hvec, float(step))  # columns that are not differentiated: never judged
+            extra["auto_set_step"] = True
+        if case.get("par"):
+            extra.update(parallel=True, n_processes=2)
+        tol, exact = _disc_tol(fn, a, x, hvec), fn.jac(x)
+        thr = _threshold(fn, tol)
+        d = _toy(layout, x0, tuple(case["wrong"]) if case["wrong"] else None)
+        ok, approx = _check_jacobian(d, case, data, a, thr, step, case["sel"], case["I"], case["O"], **extra)
+        obs.update(result=bool(ok), threshold=thr)
+        viols += _judge_check(case, ok, approx, case["sel"], case["I"], case["O"], lay, exact, tol, step, thr)
     except HarnessError:
         raise
     except Exception as e:  # noqa: BLE001
@@ -1140,6 +1322,21 @@ def _flags(case):
         if case["fn"] != DEFAULT_FN[fn.n]:
             f.append(f"fn={case['fn']}")
         return f
+    if p == "K":
+        fn = FUNCS[case["fn"]]
+        if case["last"] != "none":
+            f.append("call-with-function-kwargs")
+        for op, kn in case["hist"]:
+            f.append(("after-f_gradient" if op == "g" else "after-compute_optimal_step") + ("-without-kwargs" if kn == "none" else "-with-same-kwargs" if kn == case["last"] else "-with-other-kwargs"))
+        if case["par"]:
+            f.append("parallel")
+        if case["stepmode"] != "call":
+            f.append("step-from-instance")
+        if case["idx"]:
+            f.append(_subset_flag(list(case["idx"]), fn.n))
+        if case["fn"] != DEFAULT_FN[fn.n]:
+            f.append(f"fn={case['fn']}")
+        return f
     if p == "H":
         fn = FUNCS[case["fn"]]
         f.append("same-instance-second-call")
@@ -1185,6 +1382,20 @@ def _flags(case):
             f.append("output_names-given")
         if case["wrong"]:
             f.append("null-jacobian" if case["wrong"][0] == "*" else "forgotten-block-of-following-variable" if case["wrong"][1] == "zero" else "one-wrong-selected-entry")
+    elif p == "B4":
+        if case["auto"]:
+            f.append("auto_set_step")
+        if case["data"] != "empty":
+            f.append({"defaults": "input_data-equal-to-defaults", "point2": "input_data-off-defaults", "zero": "input_data-off-defaults:zero-component", "on_ub": "input_data-off-defaults:on-upper-bound", "partial": "input_data-partial-off-defaults"}[case["data"]])
+        f += _sel_flags(case["sel"], case["I"], case["O"], ins, outs)
+        if case["I"]:
+            f.append("input_names-given")
+        if case["O"]:
+            f.append("output_names-given")
+        if case.get("par"):
+            f.append("parallel")
+        if case["wrong"]:
+            f.append("one-wrong-selected-entry")
     elif p == "HB":
         f.append("same-object-second-call:" + case["kind"])
         if case["same_point"]:
@@ -1220,12 +1431,17 @@ def _valid(case):
     p = case["part"]
     if p == "A":
         return not (case["approx"] == "CS" and case["step"] == "vec")
+    if p == "K":
+        # ComplexStep has no compute_optimal_step
+        return not (case["approx"] == "CS" and any(op == "o" for op, _ in case["hist"]))
     if p == "H":
         return not (case["approx"] == "CS" and case["step"] == "vec") and case["pos"] in HIST_VALID_POS[case["edit"]]
     if case.get("mode") == "CS" and case["step"] == "vec":
         return False
     _, ins, outs = _lay(case)
-    if p == "B2" and case["wrong"]:
+    if p == "B4" and case["auto"] and case["mode"] == "CS":
+        return False  # oracle boundary: auto_set_step is documented for finite differences; ComplexStep has no compute_optimal_step
+    if p in ("B2", "B4") and case["wrong"]:
         return _wrong_selected(case["wrong"], case["sel"], case["I"], case["O"], ins, outs)
     if p == "HB" and case["kind"] == "check_jacobian" and case["wrong"]:
         return _wrong_selected(case["wrong"], case["second"], [], [], ins, outs)
@@ -1240,6 +1456,9 @@ def _resets(case):
         n = FUNCS[case["fn"]].n
         out += [("par", False), ("via", "call"), ("step", "s1"), ("ds", "none"), ("ds", "phys"), ("point", "interior"), ("fn", DEFAULT_FN[n])]
         out += [("idx", [])] + [("idx", [j]) for j in range(n)] + [("idx", [1, 0]), ("idx", [0, 0])]
+    elif p == "K":
+        out += [("par", False), ("hist", []), ("stepmode", "call"), ("idx", [])] + ([("last", "c")] if case["last"] not in ("none", "c") else [])
+        out += [("hist", case["hist"][k:]) for k in range(1, len(case["hist"]))]
     elif p == "H":
         n = FUNCS[case["fn"]].n
         out += [("step", "s1"), ("normalize", False), ("edit", "none"), ("pos", "interior"), ("fn", DEFAULT_FN[n])]
@@ -1254,6 +1473,9 @@ def _resets(case):
         vi, vo = list(ins)[-1], list(outs)[-1]
         out += [("cache", None), ("wrong", None), ("step", "scalar"), ("I", []), ("O", [])]
         out += [("sel", s) for s in ({}, {vi: 0}, {vi: 1}, {vo: 0}, {vo: 1}, {vi: [1, 0]}, {vi: [1, 1]}, {vo: [1, 0]})]
+        out += [("sel", {k: v for k, v in case["sel"].items() if k != drop}) for drop in case["sel"]]
+    elif p == "B4":
+        out += [*([("par", False)] if case.get("par") else []), ("wrong", None), ("auto", False), ("data", "empty"), *([("data", "point2")] if case["data"] not in ("empty", "defaults", "point2") else []), ("I", []), ("O", []), ("sel", {}), ("layout", "toy33")]
         out += [("sel", {k: v for k, v in case["sel"].items() if k != drop}) for drop in case["sel"]]
     elif p == "HB":
         out += [("cache", None), ("wrong", None), ("step", "scalar"), ("same_point", True)]
@@ -1283,7 +1505,7 @@ def _rank(sel):
 
 def _execute(case):
     p = case["part"]
-    return exec_A(case) if p == "A" else exec_H(case) if p == "H" else exec_HB(case) if p == "HB" else exec_Y(case) if p == "Y" else exec_B(case)
+    return exec_A(case) if p == "A" else exec_H(case) if p == "H" else exec_K(case) if p == "K" else exec_B4(case) if p == "B4" else exec_HB(case) if p == "HB" else exec_Y(case) if p == "Y" else exec_B(case)
 
 
 def _minimize(case, inv):
@@ -1321,17 +1543,20 @@ _NONTRIVIAL_RULE = (
     "one case = one configuration of the product; non-trivial when at least one structural axis is off its default "
     "(explicit x_indices, step vector / second step / step at construction, design space, point on/near a bound or with a "
     "zero component, parallel; discipline level: indices given, differentiated subset, step vector, one wrong entry; "
-    "histories: every two-call history counts)"
+    "histories: every two-call history counts; part K: function kwargs given, an earlier call on the instance, parallel, "
+    "step from the instance; part B4: auto_set_step, input_data given)"
 )
 
 
 def _approx_of(case):
-    return CLASSNAME[case["approx"] if case["part"] in ("A", "H") else case["mode"]]
+    return CLASSNAME[case["approx"] if case["part"] in ("A", "H", "K") else case["mode"]]
 
 
 LEVELS = {
     "A": "f_gradient",
     "H": "f_gradient, second call on the same approximator",
+    "K": "f_gradient(**kwargs of the function), history on one approximator",
+    "B4": "Discipline.check_jacobian(input_data, auto_set_step)",
     "B1": "Discipline.linearize",
     "B2": "Discipline.check_jacobian",
     "B3": "DisciplineJacApprox.compute_approx_jac",
@@ -1348,8 +1573,8 @@ def check_case(case, tally):
     flags = _flags(case)
     status = "ok" if not viols else "+".join(sorted({i for i, _ in viols}))
     level = LEVELS.get(case["part"]) or f"{'Discipline' if case['kind'] != 'compute_approx_jac' else 'DisciplineJacApprox'}.{case['kind']}, second call on the same object"
-    if case["part"] in ("A", "H"):
-        outcome = ("H:" if case["part"] == "H" else "") + f"{case['approx']}:{status}:{obs.get('order', '-')}:{obs.get('pattern', '-')}"
+    if case["part"] in ("A", "H", "K"):
+        outcome = ("" if case["part"] == "A" else case["part"] + ":") + f"{case['approx']}:{status}:{obs.get('order', '-')}:{obs.get('pattern', '-')}"
         if obs.get("below_lower_bound"):
             tally.count("cases_with_evaluations_below_a_lower_bound(not an oracle)")
         tally.count("function_evaluations_logged", int(obs.get("n_calls", 0)))
@@ -1357,8 +1582,11 @@ def check_case(case, tally):
             t = obs["tightness"]
             tally.count(f"observed_error/bound:{case['approx']}:{obs.get('order')}:" + (">=0.1" if t >= 0.1 else ">=0.001" if t >= 1e-3 else "<0.001"))
     else:
-        outcome = f"{case['part']}{':' + case['kind'] if 'kind' in case else ''}:{case['mode']}:{status}" + (f":{obs.get('result')}" if "result" in obs else "")
+        outcome = f"{case['part']}{':' + case['kind'] if 'kind' in case else ''}:{case['mode']}{'+auto_set_step' if case.get('auto') else ''}:{status}" + (f":{obs.get('result')}" if "result" in obs else "")
     nontrivial = bool([f for f in flags if not f.startswith("fn=")])
+    if "not-judged" in str(obs.get("pattern", "")) + str(obs.get("result", "")):
+        tally.count("cases_not_judged(step chosen by gemseo outside the safe range)")
+        nontrivial = False
     tally.case(_key(case), nontrivial=nontrivial, outcome=outcome, sample={"case": case, "observed": {k: obs[k] for k in ("jacobian", "n_calls", "pattern", "order", "result") if k in obs}})
     done = set()
     for inv, msg in viols:
@@ -1375,6 +1603,8 @@ def check_case(case, tally):
         sig = {"invariant": inv, "approximator": _approx_of(case), "level": level, "trigger": "+".join(mflags) or "always"}
         if inv == "auto_set_step-independent-of-cache":  # stable key, should the finding be registered instead of patched
             sig["shape"] = "auto_set_step-evaluates-outside-the-zero-cache-tolerance-context"
+        if inv == "no-exception" and small["part"] == "K" and _repeated_o(small):  # stable key, should the finding be registered instead of patched
+            sig["shape"] = "compute_optimal_step-with-per-component-step"
         if "non-differentiated-inputs-off-defaults" in mflags:  # stable key for the registered known finding
             sig["shape"] = "non-differentiated-inputs-off-defaults"
         tally.violation(sig, small, f"{inv}: {m2}\n  minimal case={small}\n  structural trigger: {sig['trigger']}")
@@ -1524,6 +1754,68 @@ def cases_C(thorough, alpha):
     return out
 
 
+# compute_optimal_step stores one step per component in ``step`` and cannot be called again with it on the unmodified
+# tree (ValueError in compute_best_step; patch notes/fixes/c16_optimal_step_per_component.diff): the histories with two
+# compute_optimal_step calls are witnesses of THAT defect and run with ``./check C16 --only KO``; set this to True to make
+# them part of the default thorough run once the patch is applied (or the finding registered).
+K_REPEATED_OPTIMAL_STEP = True
+
+
+def _repeated_o(case):
+    return sum(op == "o" for op, _ in case["hist"]) > 1
+
+
+def cases_K(thorough, alpha, repeated=K_REPEATED_OPTIMAL_STEP):
+    """Keyword arguments of the function x serial / 2 processes x the three approximators x every history of at most
+    one (thorough: two) earlier f_gradient / compute_optimal_step calls on the same instance with keyword arguments
+    from the alphabet x where the step of the last call comes from x x_indices."""
+    out = []
+    kws3 = ["none", "c", "cb"]
+    kws = kws3 + (["b", "c1"] if thorough else [])
+    for fname in ["cubic3", "expsin3", "disc33"] if thorough else ["cubic3"]:
+        n = FUNCS[fname].n
+        ops = [[op, k] for op in ("g", "o") for k in kws]
+        ops3 = [[op, k] for op in ("g", "o") for k in kws3]
+        # thorough: the histories of two earlier calls use the three-kwargs alphabet, on one function, with the default x_indices
+        hists = [([], kws)] + [([o], kws) for o in ops] + ([([o1, o2], kws3) for o1 in ops3 for o2 in ops3] if thorough and fname == "cubic3" else [])
+        idxs = [[], [n - 1]] + ([[0, n - 1], [n - 1, 0]] if thorough and fname == "cubic3" else [])
+        for approx, par, (hist, lasts), stepmode, idx in itertools.product(["FD", "CD", "CS"], [False, True], hists, ["call", "inst"], idxs):
+            for last in lasts:
+                c = {"part": "K", "fn": fname, "approx": approx, "par": par, "hist": hist, "last": last, "stepmode": stepmode, "idx": idx, "alpha": alpha}
+                if (len(hist) == 2 and idx) or (_repeated_o(c) and not repeated):
+                    continue
+                if _valid(c):
+                    out.append(c)
+    return out
+
+
+B4_SELS = {
+    "toy33": ([{}, {"x2": 1}, {"x2": [1, 0], "y2": 1}], [{"x1": 0, "x2": "slice:0:1"}, {"y2": [0]}]),
+    "toy54": ([{}, {"a": 1}, {"a": [2, 0], "w": 0}, {"b": [1]}], [{"a": "slice:0:2", "b": 0}, {"a": [1, 1]}, {"y": 1}]),
+}
+
+
+def cases_B4(thorough, alpha):
+    """Discipline.check_jacobian: auto_set_step x form of input_data x method x names x indices x {exact, one wrong entry}."""
+    out = []
+    for layout, lay in LAYOUTS.items():
+        ins, outs = lay["ins"], lay["outs"]
+        names = QUICK_NAMES[layout] if not thorough else [([], []), ([list(ins)[-1]], [list(outs)[-1]]), ([list(ins)[0]], list(outs)), (list(ins), [list(outs)[0]])]
+        sels = B4_SELS[layout][0] + (B4_SELS[layout][1] if thorough else [])
+        datas = ["empty", "defaults", "point2", "zero", "partial"] + (["on_ub"] if thorough else [])
+        for (auto, a), data, (ni, no), sel in itertools.product([(False, "FD"), (True, "FD"), (True, "CD"), (False, "CD"), (False, "CS")], datas, names, sels):
+            base = {"part": "B4", "layout": layout, "mode": a, "auto": auto, "data": data, "step": "scalar", "I": ni, "O": no, "sel": sel, "wrong": None, "alpha": alpha}
+            if not _valid(base):
+                continue
+            out.append(base)
+            wrongs = _wrong_entries(sel, ni or list(ins), no or list(outs), ins, outs, thorough and layout == "toy33")
+            for w in wrongs if thorough else wrongs[:: max(1, len(wrongs) - 1)]:  # quick: the first and the last of them
+                out.append({**base, "wrong": w})
+            if thorough and auto and layout == "toy33" and not sel:
+                out.append({**base, "par": True})
+    return out
+
+
 def cases_Y(alpha):
     """NOT part of the default run (./check C16 --only Y): DisciplineJacApprox.auto_set_step must not depend on the
     discipline's cache - the steps and error estimates equal those obtained with no cache."""
@@ -1667,6 +1959,10 @@ def run(ctx):
         cases += cases_A(ctx.thorough, alpha)
     if not only or only == "H":
         cases += cases_H(ctx.thorough, alpha)
+    if not only or only == "K":
+        cases += cases_K(ctx.thorough, alpha)
+    if only == "KO":  # witnesses of the compute_optimal_step defect (see K_REPEATED_OPTIMAL_STEP), in any tier
+        cases += [c for c in cases_K(True, alpha, repeated=True) if _repeated_o(c)]
     if not only or only == "HB":
         cases += cases_HB(ctx.thorough, alpha)
     if not only or only == "X":  # witnesses of the registered known finding (non-differentiated inputs off their defaults)
@@ -1676,7 +1972,7 @@ def run(ctx):
     if not only or only == "Y":
         cases += cases_Y(alpha)
     if not only or (only.startswith("B")):
-        cases += [c for c in cases_B(ctx.thorough, alpha) if not only or only == "B" or c["part"] == only]
+        cases += [c for c in cases_B(ctx.thorough, alpha) + cases_B4(ctx.thorough, alpha) if not only or only == "B" or c["part"] == only]
     cases.sort(key=lambda c: len(_flags(c)))  # simplest first (stable)
     serial = [c for c in cases if not _uses_processes(c)]
     par = [c for c in cases if _uses_processes(c)]
@@ -1712,6 +2008,10 @@ def run(ctx):
             "one wrong entry per selected entry (small discipline) or per block first selected row and column (two-vector discipline)); "
             "histories: 2 calls on one approximator with the DesignSpace edited in between (9 edits x second-point positions x normalize x x_indices x step), "
             "2 calls on one discipline / DisciplineJacApprox (linearize, compute_approx_jac, check_jacobian with changing io / x_indices / indices / point)",
+            "function_kwargs": "kwargs in {none, {c}, {c, body}" + (", {body}, {c: default}}" if ctx.thorough else "}") + " x 3 approximators x serial / 2 processes x histories of <= " + ("2" if ctx.thorough else "1")
+            + " earlier f_gradient / compute_optimal_step calls with kwargs on the same instance x step at call / from the instance x x_indices",
+            "check_jacobian_point_axis": "auto_set_step off/on (FirstOrderFD, CenteredDifferences; off also ComplexStep) x input_data {absent, defaults, interior point, zero components, partial"
+            + (", on upper bounds}" if ctx.thorough else "}") + " x names x indices x {exact, one wrong selected entry}" + (" (+ 2 processes on the small discipline)" if ctx.thorough else ""),
             "value_alphabet": alpha,
         },
         "assumptions": [
@@ -1722,7 +2022,9 @@ def run(ctx):
             "ComplexStep is enumerated with scalar steps only; step vectors have the length of x",
             "auto_set_step under a tolerant cache is a separate, patched finding (./check C16 --only Y), outside the default run",
             "parallel means processes (thread workers must be distinct objects by CallableParallelExecution's documented contract); the evaluation log is in fork-shared memory",
-            "check_jacobian(auto_set_step=True) and Jacobians wrong in a not-selected entry are outside the oracle",
+            "check_jacobian(auto_set_step=True) is judged for the steps auto_set_step returns on a twin discipline, when they lie in [1e-10, 1e-2); not with ComplexStep (no compute_optimal_step)",
+            "Jacobians wrong in a not-selected entry are outside the oracle",
+            "function keyword arguments change the value of the function (output multiplier, choice of the body); F(.; kwargs) is a test function with its own derived bounds",
         ],
     }
 
